@@ -362,6 +362,10 @@ method("commit", "(%s) -> Ref_Deferred" % SELF, props=["C03", "C13"], modifies=[
                 "new-request-when-idle[C03]": "implies(self.consumer_group and old(self._last_processed_offset) is not None and "
                     "old(self._last_processed_offset) != old(self._last_committed_offset) and old(len(self._commit_ds)) == 0, "
                     "n_calls('_send_commit_request') == 1)",
+                "busy-caller-queued-behind-the-commit-in-flight[C03, C13]":
+                    "implies(self.consumer_group and old(self._last_processed_offset) is not None and "
+                    "old(self._last_processed_offset) != old(self._last_committed_offset) and old(len(self._commit_ds)) > 0, "
+                    "len(self._commit_ds) == old(len(self._commit_ds)) + 1)",
                 "busy-reports-in-progress[C03]": "implies(self.consumer_group and old(self._last_processed_offset) is not None and "
                     "old(self._last_processed_offset) != old(self._last_committed_offset) and old(len(self._commit_ds)) > 0, "
                     "called(result) and failed(result) and n_calls('_send_commit_request') == 0)"})
@@ -429,10 +433,8 @@ method("_handle_commit_error", "(%s, failure: Ref_Failure, commit_offset: int, r
                "retriable-kafka-error-only[C03]": "exc_is(failure, 'KafkaError') and not exc_is(failure, 'IllegalGeneration') and "
                                                   "not exc_is(failure, 'InvalidGroupId') and not exc_is(failure, 'UnknownMemberId')",
                "committed-offset-untouched[C03]": "self._last_committed_offset == old(self._last_committed_offset)"},
-           "call:_deliver_commit_result#1": {"committed-offset-untouched[C03]": "self._last_committed_offset == old(self._last_committed_offset)"},
-           "call:_deliver_commit_result#2": {"committed-offset-untouched[C03]": "self._last_committed_offset == old(self._last_committed_offset)"},
-           "call:_deliver_commit_result#3": {"committed-offset-untouched[C03]": "self._last_committed_offset == old(self._last_committed_offset)"},
-           "call:_deliver_commit_result#4": {"committed-offset-untouched[C03]": "self._last_committed_offset == old(self._last_committed_offset)"}},
+           # (ordinals of method-call checkpoints count calls along a path: each path delivers once, whichever of the four sites)
+           "call:_deliver_commit_result#1": {"committed-offset-untouched[C03]": "self._last_committed_offset == old(self._last_committed_offset)"}},
        ensures={"backoff[C14]": "implies(n_events('Timer') == 1, event_arg('Timer', 0, 0) == min(retry_delay * 1.20205, self.retry_max_delay))",
                 # C03/C14: exactly one outcome - the waiters are told (our own cancellation while stopping, a non-Kafka error,
                 # a fencing error, the attempt limit) or one retry is scheduled, counted as the next attempt
@@ -470,7 +472,9 @@ method("_retry_auto_commit", "(%s, result: Any, by_count: bool = False) -> Any" 
        notes="hooked behind a commit that was in progress: tries the automatic commit again and passes the result on")
 
 method("_handle_auto_commit_error", "(%s, failure: Ref_Failure) -> None" % SELF, props=["C03", "C13"],
-       checkpoints={"fire:errback#1": {"reported-once[C13]": "self._start_d is not None and not called(self._start_d)"}})
+       checkpoints={"fire:errback#1": {"reported-once[C13]": "self._start_d is not None and not called(self._start_d)"}},
+       # C03/C13: a failed automatic commit surfaces on the Deferred returned by start() (unless that has fired already)
+       ensures={"failure-surfaces[C03, C13]": "n_events('Fired') == ite(old(self._start_d) is not None and not old(called(self._start_d)), 1, 0)"})
 
 method("_commit_timer_failed", "(%s, fail: Ref_Failure) -> None" % SELF, props=["C13"],
        inv_exempt_at_entry=["looper-running"],
